@@ -18,27 +18,45 @@ from translate import c18_guard, c18_ops
 
 MANIFEST = dict(
     technique='Rocq proof (POSIX join/normpath/abspath on character lists; soundness of every segment-wise guard form by '
-              'induction on a guard language) + ast guard translator + exhaustive vm_compute correspondence + audit-hook oracle',
+              'induction on a guard language; data-flow model of every OS call of RawFileSystem/FileSystemChain incl. File '
+              'handles; os.walk as a Section variable) + two fail-closed ast translators (guard, operations) + exhaustive '
+              'vm_compute correspondence + operations-model correspondence against audit-hook observations + audit-hook oracle',
     text='Theorems in Props/C18.v: for every guard expression accepted by the recogniser raise_sound (abs == root, '
-         'startswith(root + sep) in four spellings, commonpath == root, closed under and/or/not), every working directory, '
-         'root argument and path string, a path that RawFileSystem._resolve_path does not reject is absolute, contains no '
-         '".." component and its segments extend the segments of the root; the plain string-prefix guard is refuted with '
-         'root /t/root, path ../root_evil/secret.txt; normpath of an absolute path leaves no ".."; packlist.unify_path never '
-         'returns a path stepping above its base except the bare "..". The guard is regenerated from filesys.py on every '
-         'run and the obligation raise_sound(generated guard) is kernel-checked, together with a census that every '
-         'file-system access of RawFileSystem goes through _resolve_path. normpath, _resolve_path and unify_path are '
-         'compared with the model exhaustively over the segment alphabet {.., ., "", a, root, root_evil, root/x} (<= 5 '
-         'segments, four separator patterns, seven prefixes, six roots) by checksums computed inside the kernel VM. '
-         'Real temporary trees are searched with every open/stat/scandir observed.',
-    note='Trusted: Coq kernel + vm_compute, translate/c18_guard.py, the hand model SM/PathNorm.v of CPython posixpath (tied '
-         'by the exhaustive correspondence, POSIX only; Windows path semantics not covered), Adler-32 as the block '
+         'startswith(root + sep) in four spellings, commonpath == root, closed under and/or/not), every working directory '
+         '(also a different one at call time), root argument and path string, a path that RawFileSystem._resolve_path does '
+         'not reject is absolute, contains no ".." component and its segments extend the segments of the root, i.e. the '
+         'directory walk from / reaches the root and never leaves it; the plain string-prefix guard and the character-wise '
+         'os.path.commonprefix guard are refuted (root /t/root, path ../root_evil/secret.txt). Operations: the path '
+         'expression of every call of RawFileSystem that reaches the OS (open, os.walk, os.stat, os.path.isfile) is '
+         'regenerated from filesys.py by abstract interpretation of the method bodies (isinstance(x, File) narrowing, '
+         'local variables, .replace, os.path.join, _get_data, file.path); if each is a _resolve_path result (instance '
+         'obligation) then for every string argument and every File handle whatever strings it carries (built from a name '
+         'with the slashes changed, taken from an unconstrained system, written by hand) every path handed to the OS is '
+         'inside the root; trusting a handle because its name was validated is refuted with the name "..\\secret.txt"; '
+         'FileSystemChain and File touch no file system themselves and chain calls into a constrained member stay inside '
+         'the member root for every prefix (the prefix itself is not a jail: refuted, observation); for os.walk as an '
+         'arbitrary function obeying the entry-name contract every directory listed and every file found by walk_folder is '
+         'inside the root. normpath of an absolute path leaves no ".."; packlist.unify_path: an accepted path followed from '
+         'any base directory ends in it or below without leaving it, ".." can only be its last segment, the bare ".." '
+         'corner is exactly the parent (observation). normpath, _resolve_path and unify_path are compared with the model '
+         'exhaustively over two segment alphabets (plain; backslash-carrying and non-ASCII look-alikes) by checksums '
+         'computed inside the kernel VM; the operations model is compared with the accesses observed by an audit hook. '
+         'Real temporary trees (with literal backslash file names inside the root) are searched with every '
+         'open/stat/scandir observed, through strings, File handles and chains.',
+    note='Trusted: Coq kernel + vm_compute, translate/c18_guard.py and translate/c18_ops.py, the hand model SM/PathNorm.v of '
+         'CPython posixpath (tied by the exhaustive correspondence, POSIX only; Windows path semantics not covered) and the '
+         'evaluation of path expressions SM/PathOps.v (tied by the operations correspondence), Adler-32 as the block '
          'comparison, CPython audit events + a wrapper of os.stat as the observation of file-system access. Containment '
-         'is lexical (symbolic links inside the root are outside the quantifier). Escaping the *subfolder prefix* of a '
-         'FileSystemChain member while staying inside the RawFileSystem root is counted, not reported (the property '
-         'speaks about the root directory). unify_path("..") == ".." is an observation, carved out of the theorem.',
+         'is lexical (symbolic links inside the root are outside the quantifier). The os.walk contract (dirpaths are the '
+         'top joined with entry names; names contain no separator and are not "", ".", "..") is a hypothesis of the walk '
+         'theorem, not checked. Which string walk_folder stores in a yielded handle (os.path.relpath) is not modelled: the '
+         'theorems hold for any stored string because every consumer re-validates. Escaping the *subfolder prefix* of a '
+         'FileSystemChain member while staying inside the RawFileSystem root is counted, not reported (the property speaks '
+         'about the root directory). unify_path("..") == ".." is an observation, carved out of the theorem. '
+         'constrain_path=False and assignments to fs.path / fs.constrain_path from outside the class are exempt.',
 )
 
-IMPORTS = ['SV.SM.PathNorm', 'SV.SM.PathNormEnum', 'SV.SM.PathOps', 'SV.Gen.Containment_gen', 'SV.Gen.FsOps_gen', 'SV.Props.C18', 'Coq.NArith.NArith',
+IMPORTS = ['SV.SM.PathNorm', 'SV.SM.PathNormEnum', 'SV.SM.PathOps', 'SV.SM.PathWalkRel', 'SV.Gen.Containment_gen', 'SV.Gen.FsOps_gen', 'SV.Props.C18', 'Coq.NArith.NArith',
            'Coq.Lists.List']
 PRE = 'Import ListNotations.\n'
 CWD = '/w/cwd'
@@ -117,6 +135,13 @@ def path_shape(p: str) -> str:
     return '+'.join(tags)
 
 
+def impl_relpath(p: str) -> str:
+    try:
+        return posixpath.relpath(p, '/t/root')
+    except ValueError:          # relpath('') : "no path specified"
+        return '!'
+
+
 def adler(results) -> int:
     text = '\n'.join(results) + '\n'
     try:
@@ -134,7 +159,9 @@ def functions():
     """(name, Coq function text, implementation function) for every compared function."""
     from srctools.filesys import RawFileSystem
     fns = [('normpath', 'normpath', posixpath.normpath),
-           ('unify_path', '(fun p => enc_opt (unify_path p))', impl_unify)]
+           ('unify_path', '(fun p => enc_opt (unify_path p))', impl_unify),
+           ('relpath[/t/root]', f'(fun p => match p with [] => bang | _ => relpath {coq_str(CWD)} p {coq_str("/t/root")} end)',
+            impl_relpath)]
     with fake_cwd(CWD):
         for r in ROOTS:
             fs = RawFileSystem(r)
@@ -182,12 +209,12 @@ def corr_exhaustive(ck: Ck) -> None:
     for pi, prefix in enumerate(PREFIXES):
         for kind in KINDS:
             c = pi * 4 + kind
-            # quick tier: the big blocks compare normpath, unify_path and two of the six roots (rotating with the
-            # combination, so every root meets every separator pattern); one combination chosen by the seed gets 5 segments
-            some = [0, 1, 2 + c % 6, 2 + (c + 3) % 6]
+            # quick tier: <= 4 segments; the big blocks compare normpath, unify_path and two of the six roots (rotating
+            # with the combination, so every root meets every separator pattern); 5 segments only when escalated
+            some = [0, 1, 2, 3 + c % 6, 3 + (c + 3) % 6]
             # escalated quick tier (a tie is broken / _resolve_path changed): all functions, 5 segments on a third
             parts = [('alpha', n, allf if (full or n <= 3) else some) for n in range(0, 5)]
-            if ck.thorough or (full and (pi + kind) % 3 == 0) or (c - ck.seed) % 28 == 0:
+            if ck.thorough or (full and (pi + kind) % 3 == 0):
                 parts.append(('alpha', 5, allf))
             # second alphabet (backslash-carrying and non-ASCII segments): <= 3 segments, 4 in the thorough tier
             parts += [('alpha2', n, allf if (full or n <= 2) else some) for n in range(1, (4 if ck.thorough else 3) + 1)]
@@ -218,7 +245,7 @@ def corr_exhaustive(ck: Ck) -> None:
                     ck.hist('corr_segments', f'{alpha}:{n}', len(ps))
                     ck.hist('corr_alphabet', alpha, len(ps))
                     esc = sum(1 for x in res if x == '!')
-                    if name != 'normpath':
+                    if name not in ('normpath', 'relpath[/t/root]'):
                         ck.hist('corr_outcome', f'{name.split("[")[0]}:rejected', esc)
                         ck.hist('corr_outcome', f'{name.split("[")[0]}:accepted', len(res) - esc)
                     if n >= 2:
@@ -861,16 +888,25 @@ def run(ck: Ck) -> None:
     import time
     t = time.time()
     ck.rule = ('correspondence: EVERY path prefix + join(segments) with segments from {.., ., "", a, root, root_evil, root/x}, '
-               '<= 5 segments (quick: 5 on a third of the prefix/separator combinations), 4 separator patterns (/, \\, '
-               'alternating), 7 prefixes, for normpath, unify_path and _resolve_path under 6 roots; a block (function, '
-               'prefix, separators, length >= 2) is one distinct non-trivial case; plus raw random strings, non-trivial = '
-               'contains ".." and longer than 2. Oracle: operations on real trees, distinct by (root configuration, chain '
+               '<= 5 segments (quick: <= 4, and on the 4-segment blocks two of the six roots per prefix/separator '
+               'combination, rotating), and from the second alphabet of backslash-carrying and non-ASCII look-alike '
+               'segments {.., ., a, \\, ..\\, a\\.., e-acute, fullwidth "..", x<division slash>y, two-dot-leader} <= 3 '
+               '(thorough 4) segments, 4 separator patterns (/, \\, alternating), 7 prefixes, for normpath, unify_path and '
+               '_resolve_path under 6 roots; a block (function, prefix, separators, alphabet, length >= 2) is one distinct '
+               'non-trivial case; plus raw random strings, non-trivial = contains ".." and longer than 2; plus the '
+               'operations model: (method, branch, argument, handle path, handle data) cases compared with the '
+               'audit-hook observation, non-trivial = reached the OS and carries ".." or a backslash. Oracle: operations on real trees, distinct by (root configuration, chain '
                'prefix, operation, path), non-trivial = the path contains "..", a backslash or is absolute and the '
                'operation reached the file system, or it was rejected with RootEscapeError')
     ck.trusted.append('hand-written model SM/PathNorm.v of posixpath.join/normpath/abspath/commonpath and of _resolve_path / '
                       'unify_path (tied by exhaustive correspondence on every run); Adler-32 block comparison')
     ck.trusted.append('CPython audit events (open, os.scandir, os.listdir, os.walk) and a wrapper around os.stat/os.lstat as '
                       'the observation of which paths an operation touches')
+    ck.trusted.append('translate/c18_ops.py (abstract interpretation of the RawFileSystem / FileSystemChain method bodies into '
+                      'path expressions) and their evaluation SM/PathOps.v peval, tied by the operations correspondence')
+    ck.assumptions.append('os.walk contract (hypothesis of c18_walk_found_inside, not checked): every dirpath is the top joined '
+                          'with directory-entry names; entry names contain no separator and are not "", ".", ".."')
+    ck.assumptions.append('File handles may carry any strings; fs.path / fs.constrain_path are not assigned from outside the class')
     ck.assumptions.append('POSIX path semantics (os.sep == "/", backslash is an ordinary character); containment is lexical '
                           'on normalised absolute paths, symbolic links are outside the quantifier')
     ck.assumptions.append('the working directory is absolute (hypothesis is_abs cwd of the theorems); os.getcwd() always is')
